@@ -194,7 +194,11 @@ class Explorer:
         self.conf_samples: list[dict] = []
         self.symbols_order: list[tuple] = []
         for k, v in (opts or {}).items():
-            setattr(self, k, v)
+            if k == "extra_inline_roots":
+                # third-party pure-Python code that is interpreted from its real source instead of being trusted
+                self.inline_roots = self.inline_roots + list(v)
+            else:
+                setattr(self, k, v)
 
     # ---- per-path state
     def reset_path(self, prefix):
